@@ -160,3 +160,28 @@ Definition join_marked (w : slw) : list (entity * N) :=
 Definition ma_maintain (w : slw) : slw :=
   with_alloc w (sl_index w)
     (fold_left (fun mp (p : entity * N) => NM.add (snd p) (fst p) mp) (join_marked w) (NM.empty entity)).
+
+(* ------------------------------------------------------------------ *)
+(* The counter with u64 wrap-around (what `id + 1` / `index += 1` compute in
+   a build without overflow checks).  Used only for the witness
+   C15_u64_wrap_refuted: data mentioning the id 2^64-1 resets the counter. *)
+Definition U64 : N := 18446744073709551616.
+
+Definition ma_allocate_wrap (w : slw) (e : entity) (oid : option N) : slw * N :=
+  match oid with
+  | Some id =>
+      (with_alloc w (if N.leb (sl_index w) id then N.modulo (id + 1) U64 else sl_index w)
+                  (NM.add id e (sl_mapping w)), id)
+  | None =>
+      (with_alloc w (N.modulo (sl_index w + 1) U64) (NM.add (sl_index w) e (sl_mapping w)), sl_index w)
+  end.
+
+(* mark, and the allocate(e, Some(id)) + insert that retrieve_entity performs
+   for an unknown id, over the wrapping counter *)
+Definition ma_mark_wrap (w : slw) (e : entity) (oid : option N) : slw :=
+  if w_alive w e then
+    match NM.find (fst e) (sl_markers w) with
+    | Some m => w
+    | None => let '(w1, m) := ma_allocate_wrap w e oid in with_markers w1 (NM.add (fst e) m (sl_markers w1))
+    end
+  else w.
